@@ -726,13 +726,17 @@ func (x *Exec) applyContract(st *State, in ssa.Instruction, fc *FuncContract, f 
 			}
 		}
 	}
-	// captured variables of closures, by name
+	// captured variables of closures, by name: each denotes the content of its cell in the state the clause is evaluated in
+	// (the pre-state inside old(...), the post-state otherwise)
+	fvCells := map[string]*Ptr{}
 	if fv != nil && f != nil {
 		for i, b := range fv.Bind {
 			if i < len(f.FreeVars) {
 				if p, ok := b.(*Ptr); ok {
-					val, t := x.load(st, p)
-					vars[f.FreeVars[i].Name()] = TV{V: val, T: t, S: x.prog.sortOf(t)}
+					fvCells[f.FreeVars[i].Name()] = p
+					if bn := x.prog.baseFreeVarName(f, i); bn != "" {
+						fvCells[bn] = p
+					}
 				}
 			}
 		}
@@ -744,7 +748,7 @@ func (x *Exec) applyContract(st *State, in ssa.Instruction, fc *FuncContract, f 
 	pre := st.clone()
 	var calleeDefs map[string]*FunDecl
 	mk := func(s *State) *EvalCtx {
-		return &EvalCtx{x: x, prog: x.prog, st: s, old: pre, vars: vars, pkg: pkg, noLocals: true, localDefs: calleeDefs}
+		return &EvalCtx{x: x, prog: x.prog, st: s, old: pre, vars: vars, pkg: pkg, noLocals: true, localDefs: calleeDefs, fvCells: fvCells}
 	}
 	calleeDefs = x.instantiateDefs(st, fc, func() *EvalCtx { return mk(pre) })
 	ord := x.callOrd[in]
@@ -789,7 +793,7 @@ func (x *Exec) applyContract(st *State, in ssa.Instruction, fc *FuncContract, f 
 			if id, ok := m.(*EIdent); ok && fv != nil && f != nil {
 				done := false
 				for i, b := range fv.Bind {
-					if i < len(f.FreeVars) && f.FreeVars[i].Name() == id.Name {
+					if i < len(f.FreeVars) && (f.FreeVars[i].Name() == id.Name || x.prog.baseFreeVarName(f, i) == id.Name) {
 						if p, ok := b.(*Ptr); ok {
 							x.havocPointee(st, p)
 							done = true
@@ -867,9 +871,41 @@ func (x *Exec) applyContract(st *State, in ssa.Instruction, fc *FuncContract, f 
 		ctx := mk(st)
 		ctx.calleeFn, ctx.witnesses = f, witnesses
 		t := x.evalClauseAt(ctx, c)
+		if isFalse(t) && strings.TrimSpace(c.Text) != "false" {
+			// vacuity guard: a postcondition that folds to false at this call site would make everything after the call
+			// provable; unless the contract says `ensures false` (the callee does not return) that is an error in the
+			// contract or the engine, never a proof
+			x.oblige(st, "vacuity", fmt.Sprintf("%s.%s#%d", lastName(shortName), c.Label, ord), False, "postcondition is contradictory at this call site: "+c.Text)
+		}
 		st.assume(t, "ensures of "+shortName+" ["+c.Label+"]")
 	}
 	x.applyGhostSets(st, fc, mk(st))
+	if endsInFalse(fc) {
+		st.dead = true // the callee does not return: the path ends here
+	}
+	// vacuity guard per call site: with the callee's postconditions assumed, the path must still be satisfiable (a cover
+	// query, expected not to be unsat; up to three paths per call site are tried, one satisfiable path is enough)
+	if x.fc != nil && len(fc.Ensures) > 0 && !x.sweep && !endsInFalse(fc) {
+		if x.callCovers == nil {
+			x.callCovers = map[string]int{}
+		}
+		in := fmt.Sprintf("%s#%d", shortName, ord)
+		if os.Getenv("GOVC_DEBUG_COVER") != "" {
+			fmt.Fprintf(os.Stderr, "cover site %s#%d in %s n=%d trace=%v\n", shortName, ord, x.fn.Name(), x.callCovers[in], st.trace)
+		}
+		if x.callCovers[in] < 3 {
+			x.callCovers[in]++
+			name := x.obName("cover", fmt.Sprintf("after:%s#%d", lastName(shortName), ord))
+			ob := x.obs[name]
+			if ob == nil {
+				ob = &Obligation{Name: name, Fn: funcKey(x.fn), Kind: "cover", Label: "after:" + lastName(shortName), Clause: "the path stays feasible when the postconditions of " + shortName + " are assumed at this call site (vacuity guard)"}
+				x.obs[name] = ob
+				x.obOrd = append(x.obOrd, name)
+			}
+			ob.Queries = append(ob.Queries, &Query{U: x.prog.U, Lines: st.allLines(), Goal: nil, Reveal: x.reveal(), Lemmas: x.lemmas, TimeoutMs: 1000})
+			ob.Traces = append(ob.Traces, nil)
+		}
+	}
 	if x.fc != nil && x.fc.CrashInv != nil && len(fc.GhostSets) > 0 {
 		// crash point: the process may die right after this effectful call
 		ctx := x.ctxFor(st, x.entry, nil)
@@ -2041,6 +2077,16 @@ func (p *Program) isGhostVar(name string) bool {
 	}
 	for _, g := range p.Spec.GhostVars {
 		if g.Name == name {
+			return true
+		}
+	}
+	return false
+}
+
+// endsInFalse: the contract says the callee does not return (`ensures false`).
+func endsInFalse(fc *FuncContract) bool {
+	for _, c := range fc.Ensures {
+		if strings.TrimSpace(c.Text) == "false" {
 			return true
 		}
 	}
